@@ -290,7 +290,7 @@ def merge_oracle(spec):
 
 
 REJECT = ['correlate_replica_subset', 'cfg_missing_in_w', 'replica_missing_in_w', 'cov_in_obs', 'other_ensemble', 'correlate_idl', 'correlate_names',
-          'correlate_cov', 'correlate_len', 'merge_dup', 'merge_dup_far', 'merge_cov', 'multi_ensemble_weight']
+          'correlate_cov', 'correlate_len', 'correlate_idl_far', 'merge_dup', 'merge_dup_far', 'merge_cov', 'multi_ensemble_weight']
 
 
 @st.composite
@@ -341,6 +341,22 @@ def reject_oracle(spec):
             c = b['chains'][k % len(b['chains'])]
             c['idl'] = [x + 1 for x in c['idl']] if k % 2 else c['idl'][:-1] + [c['idl'][-1] + 2]
             return pe.correlate(a, build_obs(b))
+        if kind == 'correlate_idl_far':
+            # both operands far from the origin (configuration numbers 1e5 .. 1e9, as in long production runs), equally long lists
+            # that differ in one or two configurations only: still different configuration lists (C05-m20: np.allclose)
+            off = 10 ** (5 + k % 5)
+            a2, b = copy.deepcopy(wsp), copy.deepcopy(wsp)
+            for ca, cb in zip(a2['chains'], b['chains']):
+                ca['idl'] = [x + off for x in ca['idl']]
+                cb['idl'] = list(ca['idl'])
+                ca['form'] = cb['form'] = 'list'
+            c = b['chains'][k % len(b['chains'])]
+            j = (k // 5) % len(c['idl'])
+            if j == len(c['idl']) - 1 or c['idl'][j + 1] - c['idl'][j] < 2:
+                c['idl'] = c['idl'][:-1] + [c['idl'][-1] + 1 + k % 2]
+            else:
+                c['idl'] = c['idl'][:j] + [c['idl'][j] + 1] + c['idl'][j + 1:]
+            return pe.correlate(build_obs(a2), build_obs(b))
         if kind == 'correlate_len':
             b = copy.deepcopy(wsp)
             c = b['chains'][k % len(b['chains'])]
